@@ -37,6 +37,9 @@ public:
   explicit Error(const char * what) : _message(what)  { }
   Error(const char * what, const char * arg) : _message(what), _arg(arg) { }
 
+  /* the argument of the message, as given (what() is cut at 255 bytes) */
+  const std::string& arg() const noexcept { return _arg; }
+
   const char * what() const noexcept override
   {
     static thread_local char buf[256];
